@@ -19,11 +19,22 @@ txmode directives), every number `t0` of files applied by earlier runs, every cr
   statement in flight (none);
 * `rev_le_db` — in every crash state every recorded statement has its effect in the journal.
 
-PARTIAL: directories with failing statements / directives under a crash, crashes of the re-run itself
-in none mode (duplicates then add up: one per crash), and SQLite's own recovery are not covered by
-these theorems; the correspondence run covers directive mixes and the real engine.
+* `crash_mixed`, `crash_mixed_state`, `run_mixed` — directories whose files carry `-- atlas:txmode`
+  directives (any mix of `file` and `none` files, repaired `mayCommit`): a crash leaves `t` complete files
+  and a recorded prefix of file `t` only if THAT file runs without a transaction — a file in its own
+  transaction is never half-applied, whatever its neighbours do; the uninterrupted run applies every file;
+* `crash_file_count`, `crash_all_count`, `crash_none_count`, `rerun_count` — the apply-count argument:
+  the same crash states, at most `n` files beyond the ones applied before; the completed command applies
+  exactly the next `n` files (or all that are left).
+
+PARTIAL: directories with failing statements under a crash, the re-run from a half-applied file of a
+directive mix, crashes of the re-run itself in none mode (duplicates then add up: one per crash), and
+SQLite's own recovery are not covered by these theorems; the correspondence run covers them on the real
+engine.
 -/
 import Lemmas.Tx
+import Lemmas.TxCount
+import Lemmas.TxMixed
 
 namespace Props.C10
 open Atlas.Tx
@@ -255,6 +266,145 @@ applies to them as well. -/
 theorem after_is_crash_state (dir : List TFile) (t : Nat) (ht : t ≤ dir.length) : NoneCrashState dir (after dir t) :=
   ⟨t, ht, Or.inl rfl⟩
 
+/-! ### the apply-count argument (`atlas migrate apply N`) -/
+
+theorem after_take (dir : List TFile) (m t : Nat) (h : t ≤ m) : after (dir.take m) t = after dir t := by
+  unfold after; rw [List.take_take, Nat.min_eq_left h]
+
+theorem allOk_take {dir : List TFile} (h : AllOk dir) (m : Nat) : AllOk (dir.take m) :=
+  fun f hf => h f (List.mem_of_mem_take hf)
+
+/-- with a count the command is the count-less command on the directory cut `n` files after the
+applied ones. -/
+theorem plan_count_after (cfg : Cfg) (n : Nat) (hc : cfg.count = some n) (dir : List TFile) (t : Nat)
+    (ht : t ≤ dir.length) :
+    plan cfg dir (after dir t) = plan cfg.noCount (dir.take (t + n)) (after (dir.take (t + n)) t) := by
+  have hp : pendingStart (after dir t) = t := by
+    unfold after; rw [pendingStart_applyFiles]; simp [Nat.min_eq_left ht]
+  rw [plan_count cfg n hc, hp, after_take dir (t + n) t (by omega)]
+
+/-- the command on an all-succeeding directory succeeds. -/
+theorem plan_ok (cfg : Cfg) (hc : cfg.count = none) (hd : cfg.dryRun = false) (dir : List TFile) (h : AllOk dir)
+    (t : Nat) (ht : t ≤ dir.length) : (plan cfg dir (after dir t)).2 = true := by
+  rw [plan_after cfg hc hd dir t ht]
+  have hl := after_revs_length dir t ht
+  cases hm : cfg.mode with
+  | file => rw [planFiles_file cfg hm _ _ _ (allOk_drop h t) (by rw [hl]; exact Nat.le_refl _)]
+  | none => rw [planFiles_none cfg hm _ _ _ (allOk_drop h t) (by rw [hl]; exact Nat.le_refl _)]
+  | all =>
+    cases hdr : dir.drop t with
+    | nil => rfl
+    | cons f fs =>
+      rw [planFiles_all cfg hm _ f fs t (by rw [← hdr]; exact allOk_drop h t) (by rw [hl]; exact Nat.le_refl _)]
+
+/-- **crash_file_count**: file mode with a count: a crash leaves `t` complete files, `t` between the
+files applied before and `n` more. -/
+theorem crash_file_count (cfg : Cfg) (hm : cfg.mode = .file) (n : Nat) (hc : cfg.count = some n)
+    (hd : cfg.dryRun = false) (dir : List TFile) (h : AllOk dir) (t0 : Nat) (ht0 : t0 ≤ dir.length) (k : Nat) :
+    ∃ t, t0 ≤ t ∧ t ≤ t0 + n ∧ t ≤ dir.length ∧
+      crashAt (after dir t0) (plan cfg dir (after dir t0)).1 k = after dir t := by
+  rw [plan_count_after cfg n hc dir t0 ht0, ← after_take dir (t0 + n) t0 (by omega)]
+  obtain ⟨t, h1, h2, he⟩ := crash_file cfg.noCount hm rfl hd (dir.take (t0 + n)) (allOk_take h _) t0
+    (by simp; omega) k
+  simp only [List.length_take] at h2
+  exact ⟨t, h1, by omega, by omega, by rw [he, after_take dir (t0 + n) t (by omega)]⟩
+
+/-- **crash_all_count**: all mode with a count: nothing, or exactly the `n` next files. -/
+theorem crash_all_count (cfg : Cfg) (hm : cfg.mode = .all) (n : Nat) (hc : cfg.count = some n)
+    (hd : cfg.dryRun = false) (dir : List TFile) (h : AllOk dir) (t0 : Nat) (ht0 : t0 ≤ dir.length) (k : Nat) :
+    crashAt (after dir t0) (plan cfg dir (after dir t0)).1 k = after dir t0 ∨
+    crashAt (after dir t0) (plan cfg dir (after dir t0)).1 k = after dir (min (t0 + n) dir.length) := by
+  rw [plan_count_after cfg n hc dir t0 ht0, ← after_take dir (t0 + n) t0 (by omega)]
+  rcases crash_all cfg.noCount hm rfl hd (dir.take (t0 + n)) (allOk_take h _) t0 (by simp; omega) k with he | he
+  · left; exact he
+  · right; rw [he, List.length_take, after_take dir (t0 + n) _ (Nat.min_le_left _ _)]
+
+/-- **rerun_count** (file / all mode): the command with a count, run to its end, applies exactly the
+next `n` files (or all that are left). -/
+theorem rerun_count (cfg : Cfg) (hm : cfg.mode = .file ∨ cfg.mode = .all) (n : Nat) (hc : cfg.count = some n)
+    (hd : cfg.dryRun = false) (dir : List TFile) (h : AllOk dir) (t : Nat) (ht : t ≤ dir.length) :
+    runAll (after dir t) (plan cfg dir (after dir t)).1 = after dir (min (t + n) dir.length) ∧
+    (plan cfg dir (after dir t)).2 = true := by
+  rw [plan_count_after cfg n hc dir t ht]
+  refine ⟨?_, plan_ok cfg.noCount rfl hd _ (allOk_take h _) t (by simp; omega)⟩
+  rw [← after_take dir (t + n) t (by omega),
+    rerun_file_all cfg.noCount hm rfl hd (dir.take (t + n)) (allOk_take h _) t (by simp; omega),
+    List.length_take, after_take dir (t + n) _ (Nat.min_le_left _ _)]
+
+/-- a crash state of the cut directory is a crash state of the directory. -/
+theorem noneCrashState_take (dir : List TFile) (m : Nat) (c : Db) (hcs : NoneCrashState (dir.take m) c) :
+    NoneCrashState dir c := by
+  obtain ⟨t, ht, hcase⟩ := hcs
+  simp only [List.length_take] at ht
+  refine ⟨t, by omega, ?_⟩
+  rcases hcase with he | ⟨f, i, a, hf, h1, h2, h3, he⟩
+  · left; rw [he, after_take dir m t (by omega)]
+  · right
+    refine ⟨f, i, a, ?_, h1, h2, h3, by rw [he, after_take dir m t (by omega)]⟩
+    rw [List.getElem?_take] at hf
+    split at hf
+    · exact hf
+    · cases hf
+
+/-- **crash_none_count**: none mode with a count: the crash states of `crash_none`. -/
+theorem crash_none_count (cfg : Cfg) (hm : cfg.mode = .none) (n : Nat) (hc : cfg.count = some n)
+    (hd : cfg.dryRun = false) (dir : List TFile) (h : AllOk dir) (t0 : Nat) (ht0 : t0 ≤ dir.length) (k : Nat) :
+    NoneCrashState dir (crashAt (after dir t0) (plan cfg dir (after dir t0)).1 k) := by
+  rw [plan_count_after cfg n hc dir t0 ht0, ← after_take dir (t0 + n) t0 (by omega)]
+  exact noneCrashState_take dir (t0 + n) _
+    (crash_none cfg.noCount hm rfl hd (dir.take (t0 + n)) (allOk_take h _) t0 (by simp; omega) k)
+
+/-! ### directories with `-- atlas:txmode` directives -/
+
+/-- every file succeeds and runs in `file` or `none` mode — by the global mode or by its directive. -/
+def MixedOk (cfg : Cfg) (dir : List TFile) : Prop := ∀ f ∈ dir, f.OkIn cfg
+
+theorem mixedOk_drop {cfg : Cfg} {dir : List TFile} (h : MixedOk cfg dir) (t : Nat) : MixedOk cfg (dir.drop t) :=
+  fun f hf => h f (List.mem_of_mem_drop hf)
+
+/-- **crash_mixed**: any mix of `file` / `none` files, any crash point: the database holds `t` complete
+files and, only if file `t` runs without a transaction, a recorded prefix of it (`a ≤ i ≤ a+1`); a file
+that runs in its own transaction is never half-applied. -/
+theorem crash_mixed (cfg : Cfg) (hfix : cfg.fixed = true) (hc : cfg.count = none) (hd : cfg.dryRun = false)
+    (dir : List TFile) (h : MixedOk cfg dir) (t0 : Nat) (ht0 : t0 ≤ dir.length) (k : Nat) :
+    ∃ t, t0 ≤ t ∧ t ≤ dir.length ∧
+      (crashAt (after dir t0) (plan cfg dir (after dir t0)).1 k = after dir t ∨
+       ∃ f i a, dir[t]? = some f ∧ modeFor cfg f ≠ some .file ∧ a ≤ i ∧ i ≤ a + 1 ∧ i ≤ f.ok.length ∧
+         crashAt (after dir t0) (plan cfg dir (after dir t0)).1 k = partFile (after dir t) i a f.ok.length) := by
+  have hl := after_revs_length dir t0 ht0
+  rw [plan_after cfg hc hd dir t0 ht0, planFiles_mixed cfg hfix _ _ _ (mixedOk_drop h t0) (by rw [hl]; exact Nat.le_refl _)]
+  have := mblocks_crash cfg (dir.drop t0) (after dir t0) k
+  rw [hl] at this
+  obtain ⟨t, ht, hcase⟩ := this
+  refine ⟨t0 + t, by omega, by simp at ht; omega, ?_⟩
+  unfold crashAt St.crash
+  rcases hcase with he | ⟨f, i, a, hf, hm, h1, h2, h3, he⟩
+  · left; rw [he, after_add]
+  · right; exact ⟨f, i, a, by simpa using hf, hm, h1, h2, h3, by rw [he, after_add]⟩
+
+/-- every crash state of a directive mix is a `NoneCrashState`: `rev_le_db` applies. -/
+theorem crash_mixed_state (cfg : Cfg) (hfix : cfg.fixed = true) (hc : cfg.count = none) (hd : cfg.dryRun = false)
+    (dir : List TFile) (h : MixedOk cfg dir) (t0 : Nat) (ht0 : t0 ≤ dir.length) (k : Nat) :
+    NoneCrashState dir (crashAt (after dir t0) (plan cfg dir (after dir t0)).1 k) := by
+  obtain ⟨t, _, ht, hcase⟩ := crash_mixed cfg hfix hc hd dir h t0 ht0 k
+  refine ⟨t, ht, ?_⟩
+  rcases hcase with he | ⟨f, i, a, hf, _, h1, h2, h3, he⟩
+  · left; exact he
+  · right; exact ⟨f, i, a, hf, h1, h2, h3, he⟩
+
+/-- **run_mixed**: the uninterrupted command on a directive mix applies every file once. -/
+theorem run_mixed (cfg : Cfg) (hfix : cfg.fixed = true) (hc : cfg.count = none) (hd : cfg.dryRun = false)
+    (dir : List TFile) (h : MixedOk cfg dir) (t : Nat) (ht : t ≤ dir.length) :
+    runAll (after dir t) (plan cfg dir (after dir t)).1 = after dir dir.length ∧
+    (plan cfg dir (after dir t)).2 = true := by
+  have hl := after_revs_length dir t ht
+  rw [plan_after cfg hc hd dir t ht, planFiles_mixed cfg hfix _ _ _ (mixedOk_drop h t) (by rw [hl]; exact Nat.le_refl _)]
+  refine ⟨?_, rfl⟩
+  have := mblocks_full cfg (dir.drop t) (after dir t)
+  rw [hl] at this
+  unfold runAll St.crash
+  rw [this, after_all]
+
 /-! ### non-vacuity -/
 
 def sampleDir : List TFile := [{ ok := [true, true] }, { ok := [true] }, { ok := [true, true, true] }]
@@ -276,5 +426,20 @@ example :
 example :
     let cfg : Cfg := { mode := .file }
     crashAt {} (plan cfg sampleDir {}).1 11 = after sampleDir 1 := by decide
+
+/-- a directive mix under `--tx-mode none`: file 1 asks for its own transaction. -/
+def mixDir : List TFile := [{ ok := [true, true] }, { ok := [true, true], directive := some .file }, { ok := [true] }]
+
+example : MixedOk { mode := .none } mixDir := by
+  intro f hf
+  simp only [mixDir, List.mem_cons, List.not_mem_nil, or_false] at hf
+  rcases hf with rfl | rfl | rfl
+  · exact ⟨by simp, Or.inr (by decide)⟩
+  · exact ⟨by simp, Or.inl (by decide)⟩
+  · exact ⟨by simp, Or.inr (by decide)⟩
+
+/-- crash in the middle of file 1 (its own transaction): nothing of it; in the middle of file 0: a prefix. -/
+example : crashAt {} (plan { mode := .none } mixDir {}).1 9 = after mixDir 1 := by decide
+example : crashAt {} (plan { mode := .none } mixDir {}).1 3 = partFile {} 1 1 2 := by decide
 
 end Props.C10
